@@ -15,11 +15,11 @@ namespace awkward {
 
   void*
   ForthInputBuffer::read(int64_t num_bytes, util::ForthError& err) noexcept {
-    int64_t next = pos_ + num_bytes;
-    if (next > length_) {
+    if (num_bytes < 0  ||  num_bytes > length_ - pos_) {
       err = util::ForthError::read_beyond;
       return nullptr;
     }
+    int64_t next = pos_ + num_bytes;
     void* out = reinterpret_cast<void*>(
         reinterpret_cast<size_t>(ptr_.get()) + (size_t)offset_ + (size_t)pos_
     );
